@@ -325,11 +325,13 @@ def h_programmatic(eng, endpoints, act, second):
         return value * k * n * ureg_.Quantity(1, "hz") / ureg_.Quantity(1, src_unit)
 
     c.add_transformation(src_spec, dst_spec, fwd)
-    if act != "per-call-object":
+    # "A>B": the first activation in form A, the second in form B
+    acts = act.split(">") if ">" in act else [act, act]
+    if acts != ["per-call-object", "per-call-object"]:
         ureg.add_context(c)
     q = ureg.Quantity(x, src_unit)
 
-    def once(tag):
+    def once(tag, act):
         want_n = None
         try:
             if act == "per-call-object":
@@ -369,9 +371,11 @@ def h_programmatic(eng, endpoints, act, second):
         else:
             eng.fail(f"{tag}:still-active-afterwards")
 
-    once("first")
+    once("first", acts[0])
     if second:
-        once("second")
+        once("second", acts[1])
+        if acts[0] != acts[1]:
+            once("third", acts[0])
 
 
 def h_anonymous_redefinitions(eng, order):
@@ -521,6 +525,10 @@ def cases(tier, seed):
     for ep in ("derived", "derived-both", "base-expr", "container"):
         for act in ("per-call-object", "per-call-name", "per-call-default", "with-kw", "with-default", "nested-inherits", "enable-kw"):
             out.append(Case("H11.d", f"{ep}:{act}", M, "h_programmatic", {"endpoints": ep, "act": act, "second": True}, opts=mixed, validate=1))
+    all_acts = ("per-call-object", "per-call-name", "per-call-default", "with-kw", "with-default", "nested-inherits", "enable-kw")
+    for ep in ("derived", "derived-both", "base-expr", "container") if big else ("derived", "derived-both"):
+        for a1, a2 in itertools.permutations(all_acts, 2):
+            out.append(Case("H11.d", f"{ep}:{a1}>{a2}", M, "h_programmatic", {"endpoints": ep, "act": f"{a1}>{a2}", "second": True}, opts=mixed, validate=1 if (a1, a2) in (("with-kw", "with-default"), ("enable-kw", "per-call-default")) else 0))
     for order in ("ab", "ba"):
         out.append(Case("H11.d", f"anonymous-redefinitions:{order}", M, "h_anonymous_redefinitions", {"order": order}, opts=mixed, validate=1))
     # path search: all graphs with 4 nodes (first row enumerated by cases, the rest by forks)
